@@ -60,6 +60,16 @@ func (c02) Generate(prop string, r *simrt.RNG, tier string, run int) *simrt.Scen
 		nrep, nbatch, maxKV = 6, r.Range(4, 30), 120
 	}
 	sc.Knobs["replicas"] = int64(nrep)
+	if r.Chance(1, 3) {
+		sc.Knobs["altheight"] = 1
+	}
+	// strict / open: open runs (30 %) generate everything; in strict runs a replica
+	// with the mem-tree option never computes a MemSet (it applies H with Set and its
+	// noise has no pending updates), which is the shape of the recorded known defect.
+	open := r.Chance(3, 10)
+	if open {
+		sc.Knobs["open"] = 1
+	}
 	poolSize := []int{6, 20, 80, 400}[r.Intn(4)]
 	pool := NewKeyPool(r, poolSize, r.Chance(2, 3))
 	uniq, seq := 0, 0
@@ -122,15 +132,22 @@ func (c02) Generate(prop string, r *simrt.RNG, tier string, run int) *simrt.Scen
 		mode := int64(c & 1)
 		cache := int64([]int{0, 0, 1, 4, 32}[r.Intn(5)])
 		hOff := int64([]int{0, 0, 1, 7, 1000, 123456}[r.Intn(6)])
-		hStride := int64([]int{1, 1, 2, 0}[r.Intn(4)]) // 0: every batch at the same height
+		hStride := int64([]int{1, 1, 2, 0}[r.Intn(4)])   // 0: every batch at the same height
 		noiseRate := int64([]int{0, 2, 5, 8}[r.Intn(4)]) // out of 10
-		replay := int64(r.Intn(3))                      // 0 reopen, 1 crash, 2 reopen and flip the mode
+		replay := int64(r.Intn(3))                       // 0 reopen, 1 crash, 2 reopen and flip the mode
 		pruneH := int64(0)
 		if r.Chance(1, 2) {
 			pruneH = 1 << 30
 		}
 		tk := int64([]int{0, 1, 4}[r.Intn(3)])
-		sc.Ops = append(sc.Ops, simrt.Op{K: "replica", I: []int64{bits, mode, cache, hOff, hStride, int64(r.U64() >> 1), noiseRate, replay, pruneH, tk}})
+		noMemSet := int64(0)
+		if !open && bits&BitMemTree != 0 {
+			noMemSet, mode = 1, 0
+			if replay == 2 {
+				replay = 0
+			}
+		}
+		sc.Ops = append(sc.Ops, simrt.Op{K: "replica", I: []int64{bits, mode, cache, hOff, hStride, int64(r.U64() >> 1), noiseRate, replay, pruneH, tk, noMemSet}})
 	}
 	return sc
 }
@@ -141,6 +158,7 @@ type replicaSpec struct {
 	hOff, hStride        int64
 	noiseSeed, noiseRate int64
 	replay               int64
+	noMemSet             bool
 	desc                 string
 }
 
@@ -149,7 +167,7 @@ func specOf(op *simrt.Op) replicaSpec {
 	cfg.Cache = int(op.Int(2))
 	cfg.PruneHeight = int32(op.Int(8))
 	cfg.TkLen = int32(op.Int(9))
-	s := replicaSpec{cfg: cfg, mode: op.Int(1) & 1, hOff: op.Int(3), hStride: op.Int(4), noiseSeed: op.Int(5), noiseRate: op.Int(6), replay: op.Int(7)}
+	s := replicaSpec{cfg: cfg, mode: op.Int(1) & 1, hOff: op.Int(3), hStride: op.Int(4), noiseSeed: op.Int(5), noiseRate: op.Int(6), replay: op.Int(7), noMemSet: op.Int(10) == 1}
 	m := "set"
 	if s.mode == 1 {
 		m = "memset-commit"
@@ -169,6 +187,23 @@ type replicaRun struct {
 	committed [][]byte // every root committed on this replica (logical and noise)
 	pending   [][]byte // noise pending roots
 	uniq      int
+	// altHeight: the rolled-back / abandoned pending copy of the next batch may carry a
+	// neighbouring block height (a competing block) instead of the batch's own
+	altHeight bool
+	// pendSeen: uncommitted MemSets computed in the current process
+	pendSeen int
+	// pendEarlier: the same, in earlier processes of this replica (before its last restart)
+	pendEarlier int
+}
+
+func (rr *replicaRun) pendTag() string {
+	if rr.pendSeen > 0 {
+		return "uncommitted-memset-in-this-process"
+	}
+	if rr.pendEarlier > 0 {
+		return "uncommitted-memset-before-restart"
+	}
+	return "no-uncommitted-memset"
 }
 
 func (rr *replicaRun) height(b *simrt.Op) int64 { return rr.spec.hOff + b.Int(2)*rr.spec.hStride }
@@ -218,7 +253,11 @@ func (rr *replicaRun) noise(r *simrt.RNG, next int, allowRestart bool) *simrt.Vi
 	for k := r.Range(1, 3); k > 0; k-- {
 		var pnc interface{}
 		what := ""
-		switch r.Weighted(4, 2, 2, 3, 2, 2, 2, 1) {
+		kind := r.Weighted(4, 2, 2, 3, 2, 2, 2, 1)
+		if rr.spec.noMemSet && (kind == 0 || kind == 1 || kind == 2 || kind == 5) {
+			kind = 3 + kind%2 // reads instead
+		}
+		switch kind {
 		case 0: // unrelated pending update on some committed root
 			what = "MemSet"
 			var root []byte
@@ -226,6 +265,7 @@ func (rr *replicaRun) noise(r *simrt.RNG, next int, allowRestart bool) *simrt.Vi
 			root, err, pnc = n.MemSet(rr.someRoot(r), rr.noiseKVs(r), int64(r.Range(0, 60)))
 			if pnc == nil && err == nil {
 				rr.pending = append(rr.pending, root)
+				rr.pendSeen++
 				ctx.Fault("noise_pending")
 			}
 		case 1: // roll a pending update back
@@ -272,11 +312,23 @@ func (rr *replicaRun) noise(r *simrt.RNG, next int, allowRestart bool) *simrt.Vi
 				b := rr.batches[next]
 				var root []byte
 				var err error
-				root, err, pnc = n.MemSet(rr.parentRoot(next), KVs(b.Sub), rr.height(b))
+				// ... at the batch's own height or at a neighbouring one (a competing block)
+				h := rr.height(b)
+				if rr.altHeight {
+					h += int64([]int{0, 1, -1, 17}[r.Intn(4)])
+				}
+				root, err, pnc = n.MemSet(rr.parentRoot(next), KVs(b.Sub), h)
 				if pnc == nil && err == nil {
-					_, _, pnc = n.Rollback(root)
-					ctx.Fault("noise_rollback")
-					ctx.Probe("next_batch_pended_then_rolled_back")
+					rr.pendSeen++
+					if r.Chance(3, 4) {
+						_, _, pnc = n.Rollback(root)
+						ctx.Fault("noise_rollback")
+						ctx.Probe("next_batch_pended_then_rolled_back")
+					} else {
+						// never resolved: stays pending for the rest of the process
+						ctx.Fault("noise_pending")
+						ctx.Probe("next_batch_pended_and_left")
+					}
 				}
 			}
 		case 6: // direct commit of an unrelated batch on another parent at another height
@@ -299,10 +351,12 @@ func (rr *replicaRun) noise(r *simrt.RNG, next int, allowRestart bool) *simrt.Vi
 					ctx.Fault("crash_restart")
 				}
 				rr.pending = nil
+				rr.pendEarlier += rr.pendSeen
+				rr.pendSeen = 0
 			}
 		}
 		if pnc != nil {
-			return ctx.Violate("panic", "noise/"+what, "replica %s: %s panicked: %v", rr.spec.desc, what, pnc)
+			return ctx.Violate("panic", "noise/"+what+"|"+rr.spec.cfg.String()+"|"+rr.pendTag(), "replica %s: %s panicked: %v", rr.spec.desc, what, pnc)
 		}
 	}
 	return nil
@@ -331,6 +385,7 @@ func (rr *replicaRun) pass(mode int64, passNo int, onRoot func(i int, root []byt
 			var r1 []byte
 			r1, err, pnc = n.MemSet(parent, kvs, h)
 			if pnc == nil && err == nil {
+				rr.pendSeen++ // pending until the Commit below
 				nr2 := simrt.NewRNG(uint64(rr.spec.noiseSeed)).SubN(uint64(b.Int(1))*4 + uint64(passNo)*2 + 1)
 				if v := rr.noise(nr2, -1, false); v != nil {
 					return v
@@ -343,7 +398,7 @@ func (rr *replicaRun) pass(mode int64, passNo int, onRoot func(i int, root []byt
 			}
 		}
 		if pnc != nil {
-			return ctx.Violate("panic", how, "replica %s batch %d: %s panicked: %v", rr.spec.desc, i, how, pnc)
+			return ctx.Violate("panic", how+"|"+rr.spec.cfg.String()+"|"+rr.pendTag(), "replica %s batch %d: %s(parent=%x, %d kvs, height=%d) panicked: %v", rr.spec.desc, i, how, parent, len(kvs), h, pnc)
 		}
 		if err != nil {
 			return ctx.Violate("write-error", how, "replica %s batch %d: %s(parent=%x, %d kvs, height=%d) returned %v", rr.spec.desc, i, how, parent, len(kvs), h, err)
@@ -391,7 +446,7 @@ func (c02) Execute(t *testing.T, ctx *simrt.Ctx) *simrt.Violation {
 		ctx.CurOp = opIndex(rop)
 		ctx.Step()
 		spec := specOf(rop)
-		rr := &replicaRun{ctx: ctx, spec: spec, batches: batches, noiseKeys: noiseKeys}
+		rr := &replicaRun{ctx: ctx, spec: spec, batches: batches, noiseKeys: noiseKeys, altHeight: sc.Knob("altheight", 0) == 1}
 		rr.n = NewNode(fmt.Sprintf("c02-r%d", ri), spec.cfg)
 		v := func() *simrt.Violation {
 			defer rr.n.Destroy()
@@ -438,6 +493,8 @@ func (c02) Execute(t *testing.T, ctx *simrt.Ctx) *simrt.Violation {
 				mode2 = 1 - spec.mode
 			}
 			rr.pending = nil
+			rr.pendEarlier += rr.pendSeen
+			rr.pendSeen = 0
 			return rr.pass(mode2, 1, func(i int, root []byte) *simrt.Violation {
 				if !bytes.Equal(root, first1[i]) {
 					return ctx.Violate("replay-divergence", spec.desc,
